@@ -1322,6 +1322,9 @@ class TexArgs(list):
         """
         arg = self.__coerce(arg)
 
+        if i < 0:
+            # normalize like list.insert, so that `i` is the index of `arg`
+            i = max(len(self) + i, 0)
         if isinstance(arg, (TexGroup, TexCmd)):
             super().insert(i, arg)
 
@@ -1367,10 +1370,10 @@ class TexArgs(list):
         self.all.remove(item)
         super().remove(item)
 
-    def pop(self, i):
+    def pop(self, i=-1):
         """Pop argument object at provided index.
 
-        :param int i: Index to pop from the list
+        :param int i: Index to pop from the list (default: the last)
 
         >>> arguments = TexArgs([BraceGroup('arg0'), '[arg2]', '{arg3}'])
         >>> arguments.pop(1)
